@@ -49,7 +49,9 @@ class A(dns.rdata.Rdata):
         return cls(rdclass, rdtype, domain, address)
 
     def _to_wire(self, file, compress=None, origin=None, canonicalize=False):
-        self.domain.to_wire(file, compress, origin, canonicalize)
+        # Type A is not one of the types listed in RFC 4034 section 6.2, so the
+        # domain is not downcased in the DNSSEC canonical form (RFC 3597 section 7).
+        self.domain.to_wire(file, compress, origin, False)
         pref = struct.pack("!H", self.address)
         file.write(pref)
 
